@@ -57,6 +57,16 @@ def signer(seed):
     return SimpleNamespace(seed=seed, vk=vk, sk=sk, vid=vid, keep=keep)
 
 
+def trans_signer(idseed, signseed):
+    """a signer with a TRANSFERABLE ('D') vid made from the key pair of idseed that currently signs with the key pair of
+    signseed (== idseed: not rotated yet); the verifier must take the current key from its keep, never from the vid"""
+    vk0, _ = pysodium.crypto_sign_seed_keypair(idseed)
+    vk, sk = pysodium.crypto_sign_seed_keypair(signseed)
+    vid = Memoer._encodeVID(raw=vk0, code="D")
+    keep = {vid: Keyage(qvk=Memoer._encodeQVK(raw=vk), qss=Memoer._encodeQSS(raw=signseed))}
+    return SimpleNamespace(seed=signseed, vk=vk, sk=sk, vid=vid, keep=keep)
+
+
 ALICE = signer(bytes(range(32)))
 BOB = signer(bytes(range(100, 132)))
 MALLORY = signer(bytes(range(200, 232)))
@@ -179,8 +189,11 @@ def craft(code, neck, mid, body, who=None, curt=False, vid=None):
 
 
 # ---------------------------------------------------------------- receiving side
-def receiver(authic):
-    r = AuthMemoer(echoic=True) if authic else Memoer(echoic=True)
+def receiver(authic, keep=None):
+    kw = dict(echoic=True)
+    if keep is not None:
+        kw["keep"] = keep
+    r = AuthMemoer(**kw) if authic else Memoer(**kw)
     r.reopen()
     return r
 
